@@ -243,3 +243,22 @@ func greaseStanza(r *Rand) *age.Stanza {
 func sshEdPub(seed []byte) ed25519.PublicKey {
 	return ed25519.NewKeyFromSeed(seed).Public().(ed25519.PublicKey)
 }
+
+func rcptString(p *party) string { return p.rcpt.(*age.X25519Recipient).String() }
+func nativeIDs(ps ...*party) []age.Identity {
+	var out []age.Identity
+	for _, p := range ps {
+		out = append(out, p.id)
+	}
+	return out
+}
+
+// stressRSA: an RSA party without a model (the stress harness has none).
+func stressRSA() *party {
+	loadRSA()
+	id, err := agessh.NewRSAIdentity(rsaKeys[0])
+	if err != nil {
+		panic(err)
+	}
+	return &party{kind: "ssh-rsa", rcpt: id.Recipient(), id: id, name: "sshrsa:0"}
+}
